@@ -208,6 +208,8 @@ func r13RoleSwapTurnsRings(c *core.Ctx) {
 		}
 		return false
 	}
+	// env: in a helper the rings arrive as parameters; each parameter stands for what the caller passed
+	env := map[ssa.Value]map[string]bool{}
 	var origin func(v ssa.Value, seen map[ssa.Value]bool, out map[string]bool)
 	elemOrigin := func(e ssa.Value, at ssa.Instruction, seen map[ssa.Value]bool, out map[string]bool) {
 		turned := false
@@ -243,11 +245,52 @@ func r13RoleSwapTurnsRings(c *core.Ctx) {
 			// the accumulator itself grows from fresh memory inside the classification loop: not followed
 			return
 		}
+		if tags, ok := env[v]; ok {
+			for t := range tags {
+				out[t] = true
+			}
+			return
+		}
 		if seen[v] {
 			return
 		}
 		seen[v] = true
+		// the exchange done by a helper of the package: its results, with its parameters standing for the
+		// caller's values
+		helperResult := func(call *ssa.Call, idx int) bool {
+			h := call.Call.StaticCallee()
+			if h == nil || len(h.Blocks) == 0 || core.ShortPkg(core.FuncPkgPath(h)) != "snap" || len(env) > 0 {
+				return false
+			}
+			for i, a := range call.Call.Args {
+				if i < len(h.Params) {
+					if _, isSlice := a.Type().Underlying().(*types.Slice); isSlice {
+						sub := map[string]bool{}
+						origin(a, map[ssa.Value]bool{}, sub)
+						env[h.Params[i]] = sub
+					}
+				}
+			}
+			n := 0
+			for _, b := range h.Blocks {
+				for _, in := range b.Instrs {
+					if ret, ok := in.(*ssa.Return); ok && idx < len(ret.Results) {
+						n++
+						// the helper's own values are looked at with the parameter environment in place
+						origin(ret.Results[idx], map[ssa.Value]bool{}, out)
+					}
+				}
+			}
+			for k := range env {
+				delete(env, k)
+			}
+			return n > 0
+		}
 		switch x := v.(type) {
+		case *ssa.Extract:
+			if call, ok := x.Tuple.(*ssa.Call); ok && helperResult(call, x.Index) {
+				return
+			}
 		case *ssa.Const:
 			if x.Value == nil {
 				out["fresh"] = true
@@ -279,6 +322,9 @@ func r13RoleSwapTurnsRings(c *core.Ctx) {
 				} else {
 					origin(x.Call.Args[1], seen, out) // append(a, b...)
 				}
+				return
+			}
+			if x.Call.Signature().Results().Len() == 1 && helperResult(x, 0) {
 				return
 			}
 		}
@@ -1076,9 +1122,8 @@ func r46RingsEqualInStep(c *core.Ctx) {
 		return
 	}
 	ringI, ringJ := rings[0], rings[1]
-	// the loop over k
-	var header *ssa.BasicBlock
-	var kPhi *ssa.Phi
+	// the loop(s) over k: one loop with guarded comparisons, or one loop per direction
+	loops := map[*ssa.BasicBlock]*ssa.Phi{}
 	for _, b := range fn.Blocks {
 		for _, in := range b.Instrs {
 			ph, ok := in.(*ssa.Phi)
@@ -1087,17 +1132,22 @@ func r46RingsEqualInStep(c *core.Ctx) {
 			}
 			for i, e := range ph.Edges {
 				if isConstInt(e, 0) {
-					if inc, ok := ph.Edges[1-i].(*ssa.BinOp); ok && inc.Op == token.ADD && inc.X == ssa.Value(ph) && isConstInt(inc.Y, 1) {
-						header, kPhi = b, ph
+					if inc, ok := ph.Edges[1-i].(*ssa.BinOp); ok && inc.Op == token.ADD && inc.X == ssa.Value(ph) && isConstInt(inc.Y, 1) && core.BlockIf(b) != nil {
+						loops[b] = ph
 					}
 				}
 			}
 		}
 	}
-	if header == nil || core.BlockIf(header) == nil {
+	if len(loops) == 0 {
 		c.Unknown(R, construct, f.Decl.Pos(), "no counting loop `for k := 0; k < n; k++` found")
 		return
 	}
+	stopAtLoops := map[*ssa.BasicBlock]bool{}
+	for h := range loops {
+		stopAtLoops[h] = true
+	}
+	var kPhi *ssa.Phi
 	isLenOfRing := func(v ssa.Value) bool {
 		call, ok := resolveValue(v).(*ssa.Call)
 		if !ok {
@@ -1123,7 +1173,7 @@ func r46RingsEqualInStep(c *core.Ctx) {
 			return nil, false
 		}
 		v = resolveValue(v)
-		if v == ssa.Value(kPhi) {
+		if kPhi != nil && v == ssa.Value(kPhi) {
 			return lin{"k": 1}, true
 		}
 		if isLenOfRing(v) {
@@ -1237,12 +1287,15 @@ func r46RingsEqualInStep(c *core.Ctx) {
 			bi := &boolInterp{roleOf: func(*boolFrame, ssa.Value) string { return "" }, atom: atom, assign: map[string]bool{"I": iv, "J": jv}, used: map[string]bool{}}
 			fr = &boolFrame{fn: fn, roles: map[ssa.Value]string{}, env: map[ssa.Value]bool{}, phiSel: map[ssa.Value]ssa.Value{}}
 			desc := fmt.Sprintf("first ring a shell=%v, second ring a shell=%v", iv, jv)
-			out, err := bi.run(fr, fn.Blocks[0], map[*ssa.BasicBlock]bool{header: true}, 0)
+			out, err := bi.run(fr, fn.Blocks[0], stopAtLoops, 0)
 			if err != nil || out.kind != "block" {
 				c.Unknown(R, construct, f.Decl.Pos(), fmt.Sprintf("the way to the loop is not understood (%s): %v", desc, err))
 				return
 			}
+			header := out.blk
+			kPhi = loops[header]
 			seen = nil
+			fr.prev = header
 			out, err = bi.run(fr, header.Succs[0], map[*ssa.BasicBlock]bool{header: true}, 0)
 			if err != nil {
 				c.Unknown(R, construct, f.Decl.Pos(), fmt.Sprintf("one iteration of the comparison loop is not understood (%s): %v", desc, err))
